@@ -61,7 +61,7 @@ CLAIMED['C01'] = dict(
         'find_line_intersection / contains_coordinate decides exactly: strictly inside the outer ring (even-odd crossing number cast EAST, '
         'independent of the code westward ray and vertex rules; parity lemma for closed chains) and in no hole; outer boundary excluded, polygon-hole '
         'boundary included, boxes inclusive minus holes; answers invariant under rotation, reversal, re-closing and constructor normalisation; '
-        'bounding-box prefilter never changes an answer. The box-hole boundary clause is REFUTED (finding D31). Tied to the code by an in-Coq '
+        'bounding-box prefilter never changes an answer. The box-hole boundary clause is REFUTED (finding D31); the 10-decimal snapping inside find_line_intersection can flip the answer for queries whose latitude needs 11+ decimals (finding D48, float effect outside the exact model). Tied to the code by an in-Coq '
         'correspondence on exhaustive grid / half-grid queries (all rotations and windings in thorough), random star polygons, direct '
         'find_line_intersection cases, plus an independent exact Fraction even-odd oracle on every query. For axis-aligned rectangles, triangles and EVERY strictly convex '
         'ring (any length, rotation, winding) the even-odd interior is proved to be the geometric interior (strictly left of every edge; Props/C01b.v, 22 theorems), and a GeoBox and '
@@ -221,7 +221,7 @@ CLAIMED['C13'] = dict(
         'MULTIPOINT is also read in the OGC form with one parenthesised coordinate per point (what Shapely writes; repair D41), box/circle/ellipse/ring/wedge write and dispatch as POLYGON (box = exactly the WKT of its polygon form; curved shapes conditional on the sampled outline being closed and '
         'counter-clockwise, which the correspondence observes), that a wrong or unknown keyword, lowercase keyword, unaccepted nesting depth or a tuple of arity outside 2..4 gives '
         'ValueError, and that everything the gate accepts has the keyword, depth and arities of its type. REFUTED and recorded as findings: z = 0 is dropped (D14b); a digit run '
-        'split by the number pattern gives TypeError (D26). Tied to the code by the translator (the 11 regular expressions and the parser table of the CURRENT tree, re-parsed '
+        'split by the number pattern gives TypeError (D26); a polygon with a 2-D shell and a 3-D hole writes text an independent reader rejects (D51). Tied to the code by the translator (the 11 regular expressions and the parser table of the CURRENT tree, re-parsed '
         'with the stdlib regex parser and proved equal to the model terms), an executable character-level model of the readers, and an in-Coq correspondence on round trips of '
         'every kind and on every single-character corruption of valid texts (outcome Ok/ValueError/TypeError compared). Agreement with Shapely as the independent reader is '
         'OBSERVED on every generated shape (no theorem).',
@@ -266,7 +266,7 @@ CLAIMED['C20'] = dict(
         'points, multi-points, and box / curved shapes come back as the polygon with the same linear rings; the time columns / pandas cells / KML TimeStamp-TimeSpan are inverted '
         'by the readers for {no dt, instant, interval}; GeoPandas geometry relative to the C13 WKT theorem; KML geometry relative to the C14 theorem. Property dictionaries: '
         'string/int/bool (shapefile), pandas-kept values, non-empty strings (KML) survive (_partial); equality is REFUTED with witnesses: findings D38 (float truncated), D39 (ID '
-        'added), D40/D42 (missing keys filled), D43 (sub_folder_0), D45/D46 (non-string / falsy KML values), D44 (one-member multi-shapes lose their type); D41 (MULTIPOINT text of '
+        'added), D40/D42 (missing keys filled), D43 (sub_folder_0), D45/D46 (non-string / falsy KML values), D44 (one-member multi-shapes lose their type), D54 (shapefile text over 50 UTF-8 bytes is cut, a cut inside a character makes the layer unreadable); D41 (MULTIPOINT text of '
         'Shapely 2 rejected) was repaired in /repo and is now a proved round trip. Tied to the code by an in-Coq correspondence on 480-540 (quick) real archive / frame / folder round trips per run: Coq checks that the writer glue '
         'equals what the codec stored, that the contract instance holds on what the codec returned, and that the reader glue on the observed codec output equals the implementation '
         'shape; an independent Python oracle evaluates the property itself.',
